@@ -29,6 +29,7 @@ ASSUMPTIONS = [
 ]
 SHARDS = {"quick": 4, "thorough": 16}
 MIN_REACH = {
+    "grids_over_512_settings_through_executors": {"quick": 2, "thorough": 3},
     "calls_logged": {"quick": 3000, "thorough": 200000},
     "distinct_completion_orders": {"quick": 40, "thorough": 700},
     "real_pool_cases": {"quick": 8, "thorough": 100},
@@ -117,6 +118,17 @@ def cases(ctx):
             c = dict(base)
             c["strategy"] = {"name": "shuffle_int", "seed": seed}
             yield c
+    # the largest grids inside the quantifier (5 arguments x up to 4 values: 576, 768 and 1024 settings) on every way of
+    # running tasks through an executor: the placement of more than a few hundred results is a history of its own
+    big = [[4, 4, 4, 3, 3], [4, 4, 4, 4, 3], [4, 4, 4, 4, 4], [3, 4, 4, 4, 3]]
+    strategies = ["fake_submit", "fake_apply", "threadpool", "seq", "shuffle_int"] + (["processpool", "num_workers"] if not ctx.quick else [])
+    for i, name in enumerate(strategies):
+        sizes = big[(i + ctx.seed) % len(big)]
+        names_ = ["a", "b", "c", "d", "e"]
+        combos = [[a, [j * (k + 1) for j in range(n)]] for k, (a, n) in enumerate(zip(names_, sizes))]
+        st = {"name": name, "perm_seed": rng.randint(0, 10 ** 9), "seed": rng.randint(2, 999), "workers": 3, "jitter_us": 0, "jitter_seed": 0}
+        yield {"combos": combos, "spelling": "dict", "constants": {}, "kind": "int", "split": False, "flat": bool(i % 2),
+               "strategy": st, "values_as": "list", "big": True}
     # real pools, with per-call jitter to diversify completion orders
     for i in range(ctx.pick(14, 160)):
         name = REAL[i % len(REAL)]
@@ -158,6 +170,8 @@ def run_case(ctx, case):
     from xyzpy.utils import XYZError
 
     combos = [(a, list(v)) for a, v in case["combos"]]
+    if case.get("big") and case["strategy"]["name"] not in ("seq", "shuffle_int"):
+        ctx.count("grids_over_512_settings_through_executors")
     constants = dict(case["constants"])
     kind = case["kind"]
     st = case["strategy"]
